@@ -21,9 +21,12 @@ Lemma decimal_bound_Single b : buf_ok Single_consts b -> f_zero b = false ->
   exists num e10, f_decimal Single_consts b = Ok (num, e10) /\ Z.abs num < 10 ^ 7 /\ -50 <= e10 <= 36.
 Proof.
   intros Hb Hz.
+  assert (HS : 152 + 2 - c_bias Single_consts <= 2) by (change (c_bias Single_consts) with 152; lia).
+  assert (Hbig : 2 * hb Single_consts * 2 ^ 2 <= 10 * 10 ^ c_digits Single_consts - 10).
+  { rewrite hb_Single. change (c_digits Single_consts) with 7. vm_compute. discriminate. }
   destruct (decimal_bound Single_consts Single_ok ten_Single 152 2559999744 148 4095999744
            ltac:(vm_compute; reflexivity) ltac:(vm_compute; reflexivity)
-           ltac:(unfold den_norm; rewrite hb_Single; lia) b 2 Hb Hz) as (num & e10 & H1 & H2 & H3); try (cbn; lia).
+           ltac:(unfold den_norm; rewrite hb_Single; lia) b 2 Hb Hz ltac:(lia) HS Hbig) as (num & e10 & H1 & H2 & H3).
   exists num, e10. split; [exact H1|]. split; [exact H2 | lia].
 Qed.
 
@@ -31,9 +34,12 @@ Lemma decimal_bound_Double b : buf_ok Double_consts b -> f_zero b = false ->
   exists num e10, f_decimal Double_consts b = Ok (num, e10) /\ Z.abs num < 10 ^ 16 /\ -60 <= e10 <= 26.
 Proof.
   intros Hb Hz.
+  assert (HS : 182 + 2 - c_bias Double_consts <= 0) by (change (c_bias Double_consts) with 184; lia).
+  assert (Hbig : 2 * hb Double_consts * 2 ^ 0 <= 10 * 10 ^ c_digits Double_consts - 10).
+  { rewrite hb_Double. change (c_digits Double_consts) with 16. vm_compute. discriminate. }
   destruct (decimal_bound Double_consts Double_ok ten_Double 182 10239999999999999744 178 16383999999999999744
            ltac:(vm_compute; reflexivity) ltac:(vm_compute; reflexivity)
-           ltac:(unfold den_norm; rewrite hb_Double; lia) b 0 Hb Hz) as (num & e10 & H1 & H2 & H3); try (cbn; lia).
+           ltac:(unfold den_norm; rewrite hb_Double; lia) b 0 Hb Hz ltac:(lia) HS Hbig) as (num & e10 & H1 & H2 & H3).
   exists num, e10. split; [exact H1|]. split; [exact H2 | lia].
 Qed.
 
@@ -58,8 +64,8 @@ Lemma to_decimal_int_Single b n : buf_ok Single_consts b -> f_sval Single_consts
   exists j, 0 <= j /\ f_to_decimal Single_consts b = Ok (n * 10 ^ j, - j) /\ 10 ^ 6 <= Z.abs n * 10 ^ j < 10 ^ 7.
 Proof.
   apply (to_decimal_int Single_consts Single_ok 152 2559999744 148 4095999744 top_Single bot_Single lims_Single).
-  - cbn. lia.
-  - rewrite hb_Single. cbn. lia.
+  - change (c_digits Single_consts) with 7. lia.
+  - rewrite hb_Single. change (c_digits Single_consts) with 7. vm_compute. discriminate.
   - intros V HV. change (c_digits Single_consts) with 7 in HV. change (c_bias Single_consts) with 152.
     assert (0 < 2 ^ 152) by (apply Z.pow_pos_nonneg; lia). nia.
   - intros V HV. change (c_digits Single_consts - 1) with 6. change (c_bias Single_consts) with 152.
@@ -72,8 +78,8 @@ Lemma to_decimal_int_Double b n : buf_ok Double_consts b -> f_sval Double_consts
   exists j, 0 <= j /\ f_to_decimal Double_consts b = Ok (n * 10 ^ j, - j) /\ 10 ^ 15 <= Z.abs n * 10 ^ j < 10 ^ 16.
 Proof.
   apply (to_decimal_int Double_consts Double_ok 182 10239999999999999744 178 16383999999999999744 top_Double bot_Double lims_Double).
-  - cbn. lia.
-  - rewrite hb_Double. cbn. lia.
+  - change (c_digits Double_consts) with 16. lia.
+  - rewrite hb_Double. change (c_digits Double_consts) with 16. vm_compute. discriminate.
   - intros V HV. change (c_digits Double_consts) with 16 in HV. change (c_bias Double_consts) with 184.
     replace (2 ^ 184) with (4 * 2 ^ 182) by (vm_compute; reflexivity).
     assert (0 < 2 ^ 182) by (apply Z.pow_pos_nonneg; lia). change (10 ^ 16) with 10000000000000000 in HV. nia.
